@@ -300,14 +300,14 @@ def io_cases(seed, n, kinds=None):
     """(hist, op, auto, kind) : a history that builds some contents, then one operation of a chosen kind"""
     out = []
     kinds = kinds or ["insert", "insert_multiple", "remove_some", "remove_none", "remove_all_match", "update_some", "update_nochange",
-                      "drop", "remove_all", "handle_update", "read", "insert_multiple_bad", "update_raises", "update_shrink"]
+                      "drop", "remove_all", "handle_update", "read", "insert_multiple_bad", "update_raises", "update_shrink", "remove_most"]
     for i in range(n):
         g = dbgen.Gen((seed << 16) + i, {"p_selective": 1.0, "allow_raise": False})
         r = g.r
         auto = r.random() < 0.7
         g.ids = 1
         n0 = r.choice([1, 2, 3, 5, 8])
-        if kinds[i % len(kinds)] == "update_shrink":
+        if kinds[i % len(kinds)] in ("update_shrink", "remove_most"):
             auto, n0 = True, max(n0, 3)          # the index must answer the query: storage-level shortcuts hang off that path
         pts = g.points_batch(n0, in_order=r.random() < 0.7)
         hist = [("insert", pts, None, "multiple")]
@@ -345,6 +345,9 @@ def io_cases(seed, n, kinds=None):
             # the LAST stored points become shorter rows (keys unset, short values): a rewrite that reuses the old file would leave a tail behind
             op = ("update", ("S", "fields", [("k", "n")], ("cmp", ">=", ("n", ns[len(ns) // 2] if len(ns) >= 2 else 1))),
                   {"unset_tags": ["a", "b", "k", "id"], "unset_fields": ["a", "b"], "fields": ("static", {"n": 1})}, None)
+        elif kind == "remove_most":
+            # more than half of the points go, a few stay (retention-style delete): the survivors are the minority
+            op = ("remove", ("S", "fields", [("k", "n")], ("cmp", ">=", ("n", ns[1] if len(ns) >= 3 else 1))), None)
         elif kind == "update_nochange":
             op = ("update", one, {"tags": ("static", {"id": str(j)})}, None)
         elif kind == "update_raises":
